@@ -105,8 +105,8 @@ def watchdog(prog, res):
     # a stream that turned out to be a legacy frame is served by an early return of every later call: that path must do the same
     # accounting, or a caller relying on the watchdog (full output / exhausted input) spins forever on legacy input
     cont = guards.truthy_edges(f, lambda c: c.get("k") == "mem" and c.get("f") == "legacyVersion", truth=True)
-    lc = [(b, i) for b, i in f.call_roots("ZSTD_decompressLegacyStream") if cont and f.must_pass(via_edges=cont, targets=[(b, i)])]
-    if f.call_roots("ZSTD_decompressLegacyStream"):
+    lc = [(b, i) for b, i in f.call_roots(("ZSTD_decompressLegacyStream", "ZSTD_decompressLegacyStream_counted")) if cont and f.must_pass(via_edges=cont, targets=[(b, i)])]
+    if f.call_roots(("ZSTD_decompressLegacyStream", "ZSTD_decompressLegacyStream_counted")):
         rets = [(b, i) for b, i, r in f.returns()]
         after = f.flow([(b, i + 1) for b, i in lc]) if lc else set()
         tg = [t for t in rets if t in after]
